@@ -169,6 +169,33 @@ func rawOf(path string, params []qParam) string {
 	return raw
 }
 
+// c08Long: URLs whose canonical form is much longer than what was parsed (characters that are legal
+// unescaped in a raw URL and that String() percent-encodes, selections spelled out in full): a
+// limit applied to the one must not refuse the other.
+func c08Long(x *mc.Exec) {
+	soft := x.Bool("soft")
+	schema := urlSchema(soft)
+	n := []int{10, 100, 170, 171, 250, 400, 1000}[x.Choose(7, "repetitions")]
+	chunk := []string{":@", "/?", "~x", "%22%7B"}[x.Choose(4, "characters")]
+	long := strings.Repeat(chunk, n)
+	where := x.Choose(5, "where")
+	raw := []string{
+		"/a?filter=" + long,
+		"/a/" + strings.ReplaceAll(strings.ReplaceAll(long, "/", ":"), "?", "@"),
+		"/a?page%5Bcursor%5D=" + long,
+		"/a?include=r.s.t,rr.s,ab.ab.r&filter=" + long + "&page%5Bsize%5D=3",
+		"/cs?sort=-Nn,N&page%5B" + strings.ReplaceAll(strings.ReplaceAll(long, "/", ":"), "?", "@") + "%5D=1",
+	}[where]
+	x.Render(fmt.Sprintf("%d x %q at position %d (%d bytes)", n, chunk, where, len(raw)))
+	u, err, pmsg, _ := ParseURL(x, schema, raw, false)
+	x.R.Add("transitions", 1)
+	if pmsg != "" || err != nil || u == nil {
+		return // C07's business
+	}
+	x.R.Mark("nontrivial", mc.Hash(raw, soft))
+	c08Fixpoint(x, schema, raw, u)
+}
+
 // c08OtherSchema: the canonical form depends on the schema given to THIS parse only. A second
 // schema declares the same type names with as many attributes under other names (another
 // service, or the same schema after RemoveAttr + AddAttr); URLs that leave sort / fields to
@@ -222,7 +249,7 @@ func c08Space(x *mc.Exec) {
 		max = 3
 	}
 	// thorough: on four paths a third parameter from the reduced menu (one instance per parameter name)
-	raw, params, path := GenURLReduced(x, max, 2)
+	raw, params, path := GenURLOpt(x, max, 2, 1, true)
 	soft := len(x.Choices())%2 == 0
 	schema := urlSchema(soft)
 	x.Render(raw)
@@ -238,7 +265,7 @@ func c08Space(x *mc.Exec) {
 		return
 	}
 	// the order in which the parser visits the parameters is the runtime's choice
-	if len(params) >= 2 {
+	if len(params) == 2 {
 		ud, derr, dp, _ := ParseURL(x, schema, raw, true)
 		x.R.Add("transitions", 1)
 		if dp != "" || derr != nil || ud == nil {
@@ -342,6 +369,12 @@ func c08Reserved(x *mc.Exec) {
 
 func c08Trees(x *mc.Exec) {
 	// and/or filter trees of depth <= 3 over two leaves, through the URL
+	// quick: depth <= 2, a collation choice on every operator node (3726 trees); thorough adds the
+	// trees of depth <= 3 whose collation choice is at the root only (1.2 million)
+	depth, colEverywhere := 2, true
+	if Thorough() && x.Bool("depth 3") {
+		depth, colEverywhere = 3, false
+	}
 	var build func(dep int) string
 	build = func(dep int) string {
 		n := 4
@@ -355,7 +388,10 @@ func c08Trees(x *mc.Exec) {
 			return `{"f":"y","o":"<","v":5}`
 		case 2:
 			k := x.Choose(3, "fan")
-			col := []string{"", `,"c":"en"`}[x.Choose(2, "collation")]
+			col := ""
+			if colEverywhere || dep == depth {
+				col = []string{"", `,"c":"en"`}[x.Choose(2, "collation")]
+			}
 			kids := []string{}
 			for i := 0; i < k; i++ {
 				kids = append(kids, build(dep-1))
@@ -363,17 +399,16 @@ func c08Trees(x *mc.Exec) {
 			return `{"o":"and","v":[` + strings.Join(kids, ",") + `]` + col + `}`
 		default:
 			k := x.Choose(3, "fan")
-			col := []string{"", `,"c":"en"`}[x.Choose(2, "collation")]
+			col := ""
+			if colEverywhere || dep == depth {
+				col = []string{"", `,"c":"en"`}[x.Choose(2, "collation")]
+			}
 			kids := []string{}
 			for i := 0; i < k; i++ {
 				kids = append(kids, build(dep-1))
 			}
 			return `{"o":"or","v":[` + strings.Join(kids, ",") + `]` + col + `}`
 		}
-	}
-	depth := 2
-	if Thorough() {
-		depth = 3
 	}
 	tree := build(depth)
 	esc := strings.NewReplacer("{", "%7B", "}", "%7D", "\"", "%22", " ", "%20", "&", "%26", "[", "%5B", "]", "%5D", "<", "%3C", ",", "%2C", ":", "%3A", "=", "%3D").Replace(tree)
@@ -393,13 +428,14 @@ func c08Trees(x *mc.Exec) {
 func init() {
 	Register(&Prop{
 		ID: "C08",
-		Rule: "Engine A, all choices Full: every URL of the C07 query space (17 paths x ordered sequences of 0..2 parameters, thorough: plus, on four representative paths, a third one out of one instance per parameter name, from the ~120-instance menu incl. and/or operators in other letter cases and a type whose field names differ by case only) that the parser accepts; ids, page values, page keys, filter labels and filter strings containing each of 12 reserved-character samples (space & ? # % + / = , non-ASCII) at 6 positions; every and/or filter tree of depth <= 2 (thorough 3) and fan-out <= 2 with and without a collation on each operator node. Oracle: String() parses, the re-parsed URL has the same fragments, type, id, relationship, field selection, sorting rules, page map (collection URLs), filter label / canonical filter JSON, and its String() is the same text; String() itself changes nothing read from the URL and is repeatable; every permutation of differently named parameters, reversal of fields/include lists and insertion of empty items yields the same String(). Non-trivial = accepted URL",
+		Rule: "Engine A, all choices Full: every URL of the C07 query space (17 paths x ordered sequences of 0..2 parameters, thorough: plus, on four representative paths, a third one out of one instance per parameter name, from the ~120-instance menu incl. and/or operators in other letter cases and a type whose field names differ by case only) that the parser accepts; ids, page values, page keys, filter labels and filter strings containing each of 12 reserved-character samples (space & ? # % + / = , non-ASCII) at 6 positions; every and/or filter tree of depth <= 2 and fan-out <= 2 with and without a collation on each operator node (thorough: plus depth 3 with the collation choice at the root). Oracle: String() parses, the re-parsed URL has the same fragments, type, id, relationship, field selection, sorting rules, page map (collection URLs), filter label / canonical filter JSON, and its String() is the same text; String() itself changes nothing read from the URL and is repeatable; every permutation of differently named parameters, reversal of fields/include lists and insertion of empty items yields the same String(). Non-trivial = accepted URL",
 		Assumptions: []string{"'page parameters' = the whole Page map of a collection URL"},
 		Harnesses: []Harness{
 			{Name: "C08/space", Body: c08Space, Dev: func() int { return 1 }},
 			{Name: "C08/reserved", Body: c08Reserved},
-			{Name: "C08/trees", Body: c08Trees},
+			{Name: "C08/trees", Body: c08Trees, ShardDepth: 6},
 			{Name: "C08/other-schema", Body: c08OtherSchema},
+			{Name: "C08/long", Body: c08Long},
 		},
 	})
 }
